@@ -82,8 +82,9 @@ def ec_locality(rep, rng, tier):
       brought to size 2**10 first so that every call of the comparison sees the same cached table.  How often the
       attached DISCRETE_LOG_DIFF string of a key changes with the order is COUNTED, not judged
       (smallDiff_evidence_depends_on_order: the last hit in scan order is kept).
-  CheckWeakECPrivateKey is NOT compared alone-vs-batch: its verdict for private keys just above 2**32 * multiplier
-  depends on the batch size (C17Ec.weakKey_verdict_depends_on_batch; reproduction in the docstring there)."""
+  (3) CheckWeakECPrivateKey (review-2 L1: it used to be excluded WHOLESALE because of D22): `weak_key_locality`
+      below compares alone vs batch vs position vs cached table for the keys on which the verdict IS an invariant
+      (weakKey_guaranteed_any_context, weakKey_sound_any_batch); only the zone that D22 describes is left out."""
   from paranoid_crypto.lib import ec_util, util, ec_single_checks, ec_aggregate_checks
   from paranoid_crypto import paranoid_pb2 as pb
 
@@ -166,9 +167,141 @@ def ec_locality(rep, rng, tier):
         ref[key] = flag
         refinfo.setdefault(key, inf)
     c._table, c._table_size = saved
+  compared += weak_key_locality(rep, rng, tier)
   rep.extra['ec_locality_comparisons'] = compared
   rep.extra['smalldiff_evidence_changed_with_order'] = evidence_changes
   rep.evaluations += compared
+
+
+def weak_key_locality(rep, rng, tier):
+  """CheckWeakECPrivateKey alone vs in batches (review-2 L1), on the real check with fresh protobufs and the real
+  curve objects (their `_table` saved, reset to the fresh state first, restored afterwards).  Keys d*G with
+    * 'family'  d = i * m, 1 <= i < BOUND, m one of ExtendedBatchDL's multipliers (2^(8j); 1 + 2^32 + ... + 2^(32(r-1))):
+                the documented families - must be flagged in EVERY context with DISCRETE_LOG = d (mod n)
+                (Props/C17Ec weakKey_guaranteed_any_context);
+    * 'healthy' d uniform in [n/256, n): must be flagged in NO context;
+    * 'far'     d = i * m with i odd in [2^6 * BOUND, 2^12 * BOUND) (structured, but 64 bounds beyond the documented
+                range, far beyond every table this function builds): must be flagged in NO context.
+  Contexts: alone from a fresh table; alone after the batches (cached, larger table); the whole pool in three orders;
+  random sub-batches with unknown-curve / off-curve / other-curve neighbours.  The result entry (result, severity),
+  the weak flag and the attached DISCRETE_LOG must coincide in all contexts (string equality for 'healthy' / 'far';
+  for 'family' keys equality modulo n with d - the integer printed is `dlog * multiplier` of the LAST matching form
+  and may differ by a multiple of n between contexts: counted in extra.weakkey_log_representation_changes).
+  LEFT OUT, and only this (known finding D22): i in [BOUND, 2^6 * BOUND) and the negatives -v, v below the cached
+  table range - there the verdict depends on the batch size and the cached table (logs up to about
+  BOUND + 2*table_size + table range are found by luck).
+  quick tier: BOUND = 2^16 (EcCurve.BatchDL wrapped so that the literal 2**32 of ExtendedBatchDL becomes 2^16, as
+  in corr/ecall.py), secp256r1 and secp256k1.  thorough tier: additionally the literal 2^32 on secp256r1."""
+  from paranoid_crypto.lib import ec_util, util, ec_single_checks
+  from paranoid_crypto import paranoid_pb2 as pb
+  import corr.c10 as c10
+  name = 'CheckWeakECPrivateKey'
+
+  def mk(cid, pt):
+    k = pb.ECKey()
+    k.ec_info.curve_type = cid
+    k.ec_info.x = util.Int2Bytes(int(pt[0]))
+    k.ec_info.y = util.Int2Bytes(int(pt[1]))
+    return k
+
+  def verdict(k):
+    e = art.entry(k.test_info, name)
+    a = util.GetAttachedInfo(k.test_info, 'DISCRETE_LOG')
+    others = sorted(x.info_name for x in k.test_info.attached_info if x.info_name != 'DISCRETE_LOG')
+    return (None if e is None else (bool(e.result), int(e.severity)), None if a is None else a.value,
+            bool(k.test_info.weak), tuple(others))
+
+  compared = 0
+  rep_changes = 0
+  E = ec_util.EcCurve
+  real_dl = E.BatchDL
+  runs = [(2 ** 16, [pb.CurveType.CURVE_SECP256R1, pb.CurveType.CURVE_SECP256K1])]
+  if tier != 'quick':
+    runs.append((2 ** 32, [pb.CurveType.CURVE_SECP256R1]))
+  for bound, cids in runs:
+    if bound != 2 ** 32:
+      E.BatchDL = lambda curve, points, n_, bound=bound: real_dl(curve, points, bound if n_ == 2 ** 32 else n_)
+    saved = {cid: (ec_util.CURVE_FACTORY[cid]._table, ec_util.CURVE_FACTORY[cid]._table_size) for cid in cids}
+    try:
+      for cid in cids:
+        c = ec_util.CURVE_FACTORY[cid]
+        n = int(c.n)
+        ms = c10.multipliers(n)
+        small = bound == 2 ** 32          # literal bound: every context costs seconds
+        pool = []                         # (kind, d, point)
+        fam_ms = [ms[0], ms[1], ms[len(ms) // 3], [m for m in ms if m & (m - 1) == 0][-1],
+                  [m for m in ms if m & (m - 1)][0], ms[-1]]
+        for m in (fam_ms[:1] + fam_ms[-2:] if small else fam_ms):
+          for i in ([rng.randrange(1, bound)] if small else [1, bound - 1, rng.randrange(1, bound)]):
+            pool.append(('family', i * m % n, None))
+        for _ in range(1 if small else 3):
+          pool.append(('healthy', rng.randrange(n >> 8, n), None))
+        for m in ([ms[0]] if small else [ms[0], fam_ms[3], ms[-1]]):
+          pool.append(('far', (rng.randrange(bound << 6, bound << 12) | 1) * m % n, None))
+        pool = [(kind, d, c.Multiply(c.g, d)) for kind, d, _ in pool]
+        other = pb.CurveType.CURVE_SECP192R1
+        co = ec_util.CURVE_FACTORY[other]
+        Q = co.Multiply(co.g, rng.randrange(1, int(co.n)))
+        noise = [(0, (1, 2)), (cid, (pool[0][2][0], (int(pool[0][2][1]) + 1) % int(c.mod))), (other, Q)]
+        contexts = {}                     # pool index -> [(context name, verdict)]
+
+        def run(batch, ctx):
+          keys = [mk(cid if isinstance(t, int) else t[0], pool[t][2] if isinstance(t, int) else t[1]) for t in batch]
+          ec_single_checks.CheckWeakECPrivateKey().Check(keys)
+          for t, k in zip(batch, keys):
+            if isinstance(t, int):
+              contexts.setdefault(t, []).append((ctx, verdict(k)))
+        c._table, c._table_size = {}, 0
+        alone_first = list(range(len(pool))) if not small else [0, len(pool) - 1]
+        for t in alone_first:
+          if not small:
+            c._table, c._table_size = {}, 0          # every alone run from a FRESH table
+          run([t], 'alone/fresh' if (not small or t == 0) else 'alone/cached-own')
+        c._table, c._table_size = {}, 0
+        idx = list(range(len(pool)))
+        run(idx, 'all/fresh')
+        if not small:
+          run(idx[::-1], 'all/reversed')
+          for r_ in range(3 if tier == 'quick' else 8):
+            sub = rng.sample(idx, rng.randrange(2, len(idx)))
+            batch = sub + [rng.choice(noise) for _ in range(rng.randrange(0, 4))]
+            rng.shuffle(batch)
+            if r_ % 2:
+              c._table, c._table_size = {}, 0
+            run(batch, 'sub-batch%s' % ('/fresh' if r_ % 2 else '/cached'))
+        for t in (idx if not small else idx[:2] + idx[-1:]):
+          run([t], 'alone/after-batches')
+        for t, seen in contexts.items():
+          kind, d, P = pool[t]
+          for ctx, v in seen:
+            compared += 1
+            bad = None
+            if kind == 'family':
+              if v[0] is None or not v[0][0] or v[1] is None or not v[2]:
+                bad = 'a key of the documented families (d = %x) is not flagged' % d
+              elif (int(v[1], 16) - d) % n:
+                bad = 'DISCRETE_LOG %s is not congruent to the private key %x' % (v[1], d)
+              elif v[0] != seen[0][1][0] or v[3] != seen[0][1][3]:
+                bad = 'result entry differs from the first context %r' % (seen[0],)
+              elif v[1] != seen[0][1][1]:
+                rep_changes += 1
+            elif v != seen[0][1] or (v[0] is not None and v[0][0]) or v[1] is not None:
+              bad = ('a %s key (d = %x) is flagged / its entry differs from the first context %r' % (kind, d, seen[0]))
+            if bad:
+              rep.violations.append(dict(
+                  op=name, line='%s alone-vs-batch curve=%d bound=2^%d %s d=%s' % (name, cid, bound.bit_length() - 1, kind, H(d)),
+                  what='%s (BatchDL bound 2^%d, %s): %s; context %s -> %r' % (name, bound.bit_length() - 1, c.name, bad, ctx, v),
+                  impl=str(v), model=str(seen[0][1]),
+                  info=dict(curve=cid, bound=bound, kind=kind, d=hex(d), contexts=[(a, list(b)) for a, b in seen])))
+              break
+        rep.tags['c17.weakkey:%s:bound=2^%d' % (c.name, bound.bit_length() - 1)] = sum(len(v) for v in contexts.values())
+    finally:
+      E.BatchDL = real_dl
+      for cid, (tb, sz) in saved.items():
+        ec_util.CURVE_FACTORY[cid]._table, ec_util.CURVE_FACTORY[cid]._table_size = tb, sz
+  rep.extra['weakkey_locality_comparisons'] = compared
+  rep.extra['weakkey_log_representation_changes'] = rep_changes
+  return compared
 
 
 def correspondence(rep, rng, tier):
